@@ -19,6 +19,7 @@ import (
 
 	"verif/harness/internal/ev"
 	"verif/harness/internal/gen"
+	"verif/harness/internal/props/c02"
 	"verif/harness/internal/rig/fakemysql"
 	"verif/harness/internal/rig/fakepg"
 	"verif/harness/internal/rig/ksrig"
@@ -49,6 +50,8 @@ func Layer(r *ev.Run) {
 			round(r, gen.New(r.Seed, fmt.Sprintf("c02-proxy-%d-%v-%d", i, my, rng.Int63())), i, my)
 		}
 	}
+	// the HTTP API of AcraTranslator on a unix-socket listener: identities of successive connections from one peer address
+	c02.HTTPPeerReuse(r)
 	r.RequireAtLeast("proxy_foreign_values_checked_not_in_clear", 2000)
 	r.RequireAtLeast("proxy_own_values_revealed", 1000)
 	r.RequireAtLeast("proxy_tls_sessions_with_certificate_identity", 40)
